@@ -142,12 +142,13 @@ def run(case):
         if len(want):
             # same nested order (operation, then position); fall back to a multiset match
             if np.abs(got - want).max() > 1e-6:
-                a = got[np.lexsort(np.round(got, 5).T)]
-                b = want[np.lexsort(np.round(want, 5).T)]
-                if np.abs(a - b).max() > 1e-5:
-                    k = int(np.argmax(np.abs(a - b).max(axis=1)))
-                    raise Violation('point-is-inverse-operation-image', f'space group {case["group"]}: point {a[k].tolist()} vs expected {b[k].tolist()} (site {site})')
-            if np.abs(np.asarray(shape.distances()) - np.linalg.norm(want, axis=1)).max() > 1e-6 and np.abs(np.sort(shape.distances()) - np.sort(np.linalg.norm(want, axis=1))).max() > 1e-6:
+                # the order of the collected points is not specified: compare as multisets
+                perm = oracle.match_rows(want, got, 1e-6)
+                if perm is None:
+                    d = np.abs(want[:, None, :] - got[None, :, :]).max(axis=-1).min(axis=1)
+                    k = int(np.argmax(d))
+                    raise Violation('point-is-inverse-operation-image', f'space group {case["group"]}: expected point {want[k].tolist()} (image under the inverse operation) has no counterpart among the collected points (nearest is {d[k]:.3e} A away; site {site})')
+            if np.abs(np.sort(shape.distances()) - np.sort(np.linalg.norm(want, axis=1))).max() > 1e-6:
                 raise Violation('distance-to-centre-equals-source-distance', '')
         if shape.radius != radius:
             raise Violation('shape-radius', '')
@@ -235,9 +236,7 @@ def run_from_structure(case):
         if len(got) != len(want):
             raise Violation('point-count-equals-pair-count', f'from_structure, space group {case["group"]} with origin shifted by {case["origin"]}: {len(got)} points, {len(want)} (operation, position) pairs within {radius} A')
         if len(want):
-            a = got[np.lexsort(np.round(got, 5).T)]
-            b = want[np.lexsort(np.round(want, 5).T)]
-            if np.abs(a - b).max() > 1e-5:
+            if oracle.match_rows(want, got, 1e-5) is None:
                 raise Violation('point-is-inverse-operation-image', f'from_structure, space group {case["group"]}, origin {case["origin"]}: points differ from the images under the structure\'s own operations')
             if np.linalg.norm(got, axis=1).max() >= radius + 1e-7:
                 raise Violation('every-point-within-radius', f'from_structure, space group {case["group"]}')
